@@ -50,6 +50,7 @@ RULE = (
 CATS = P.CATS
 _MISSING = object()
 CUSTOM = "<custom>"  # placeholder of the custom hasher object in a JSON-able scheme list; "<custom!k>": using() fails at call k
+PRECONF = "<custom^>"  # the custom hasher object, customised by the application (own cost window 2..9) before it is listed
 PW, BAD = "c10-right", "c10-wrong"
 
 
@@ -109,7 +110,13 @@ def materialize(cfg):
     if isinstance(sch, list):
         new = []
         for el in sch:
-            if isinstance(el, str) and el.startswith("<custom"):
+            if isinstance(el, str) and el == PRECONF:
+                # a hasher object the application customised itself before listing it: its own cost window is
+                # inherited by the context's record, not part of the context's configuration
+                H = make_custom(None)
+                gates.append(H._gate)
+                new.append(H.using(min_rounds=2, max_rounds=9, default_rounds=5))
+            elif isinstance(el, str) and el.startswith("<custom"):
                 k = int(el[8:-1]) if "!" in el else None
                 H = make_custom(k or None)
                 gates.append(H._gate)
@@ -150,7 +157,11 @@ def probe_table(cfg, seed):
     for s in model.schemes:
         H = model.handlers[s]
         kw = {"user": "u"} if "user" in (getattr(H, "context_kwds", None) or ()) else {}
-        if "rounds" in P._wrapped(H).setting_kwds:
+        if s == "c10custom" and PRECONF in (cfg.get("schemes") or ()):
+            # the inherited window is not in the model: probe every cost around it
+            for cost in range(1, 25):
+                table.append((P.make_hash(H, cost, PW, seed), True, cost == 1, kw))
+        elif "rounds" in P._wrapped(H).setting_kwds:
             first = True
             for cost, real in P.probe_costs(model, s):
                 table.append((P.make_hash(H, cost, PW, seed) if real else P.synth_hash(H, cost, seed), real, first and real, kw))
@@ -553,7 +564,11 @@ def place(valid, bad, pos):
 def fillers(cfg):
     """two changes that are valid on every base"""
     model = M.Policy(materialize(cfg)[0])
-    return [("staff__context__deprecated", []), ("ops__context__default", model.default(None))]
+    out = [("staff__context__deprecated", []), ("ops__context__default", model.default(None))]
+    if PRECONF in (cfg.get("schemes") or ()):
+        # valid on its own: an explicit minimum above the window the hasher object brought along lifts that window
+        out.insert(0, ("c10custom__min_rounds", 12))
+    return out
 
 
 def text_fault(items, fault, pos, section="passlib"):
@@ -903,6 +918,11 @@ EXTRAS = [
     {"schemes": ["pbkdf2_sha256", "md5_crypt"], "pbkdf2_sha256__default_rounds": 200, "pbkdf2_sha256__vary_rounds": 1.0},
     {"schemes": ["sha256_crypt"], "sha256_crypt__default_rounds": 2000, "sha256_crypt__max_rounds": 4000, "all__vary_rounds": "100%"},
 ]
+#: bases of the fault enumeration only (their inherited settings are outside the reference model)
+FAULT_EXTRAS = [
+    {"schemes": ["md5_crypt", PRECONF, "pbkdf2_sha256"], "pbkdf2_sha256__rounds": 200, "deprecated": ["md5_crypt"]},
+    {"schemes": [PRECONF, "sha256_crypt"], "sha256_crypt__min_rounds": 1000, "sha256_crypt__max_rounds": 1500, "default": "sha256_crypt"},
+]
 ROUTES = ("dict", "string", "path", "copy", "noop", "update")
 
 
@@ -1006,6 +1026,7 @@ def run(ctx):
         if n > 1 or not ctx.quick:
             hb += sized[5::hstep][:hper]
     fb += [(f"extra{i}", cfg) for i, cfg in enumerate(EXTRAS)]
+    fb += [(f"fault_extra{i}", cfg) for i, cfg in enumerate(FAULT_EXTRAS)]
     hb += [(f"extra{i}", cfg) for i, cfg in enumerate(EXTRAS) if not has_custom(cfg)][:2 if ctx.quick else 5]
     tasks = []
     rcases = [{"part": "roundtrip", "base": cfg, "seed": seed, "route": route, "cls": cls} for cls, cfg in rt for route in ROUTES]
